@@ -651,8 +651,32 @@ GtModel genGroundTruthModel(Src &src, const GtOptions &opt)
     if (nlaSize > 0 && !m.classes.empty()) {
         GtNlaSystem sys;
         sys.comp = static_cast<int>(src.below(nComps));
+        // Conventions of the library for implicit equations (learnt by probing, see DESIGN.md): with a single unknown and no
+        // initial value on it, the equation is an NLA equation for that unknown whatever else it reads. Several coupled
+        // unknowns are only recognised when each carries an initial value (an initial guess) - and then EVERY initialised
+        // non-state variable the equations mention is taken for an unknown, so such systems must not read constants
+        // (initialised variables); they read computed constants, algebraic variables, states and the voi only.
+        const bool withGuesses = nlaSize > 1 || src.flip(30);
+        // touchesConstant: the value is (transitively, through defining equations) derived from an initialised constant.
+        // With initial guesses in play the library reads such webs of initialised variables differently from what the
+        // construction intends (any initialised variable may end up as the unknown of some equation), so systems with
+        // guesses read only the voi, states and what is computed from those and from literals.
+        std::vector<bool> touchesConstant(m.classes.size(), false);
+        for (size_t k = 0; k < m.classes.size(); ++k) {
+            const GtClass &kc = m.classes[k];
+            if (kc.role == GtRole::CONSTANT) {
+                touchesConstant[k] = true;
+            } else if (kc.role == GtRole::COMPUTED_CONSTANT || kc.role == GtRole::ALGEBRAIC) {
+                for (int d : kc.deps) {
+                    touchesConstant[k] = touchesConstant[k] || touchesConstant[static_cast<size_t>(d)];
+                }
+            }
+        }
         std::vector<int> known;
         for (size_t k = 0; k < m.classes.size(); ++k) {
+            if (withGuesses && touchesConstant[k]) {
+                continue;
+            }
             known.push_back(static_cast<int>(k));
         }
         std::vector<std::pair<std::string, double>> vars;
@@ -679,10 +703,9 @@ GtModel genGroundTruthModel(Src &src, const GtOptions &opt)
             }
             c.value[0] = b.evalAt(w, sys.comp, 0);
             c.value[1] = b.evalAt(w, sys.comp, 1);
-            // No initial guess is given to the unknowns: an initial value on an NLA unknown makes the library treat every
-            // initialised variable of the equation (the constants it reads) as an unknown as well, which is outside
-            // the generated domain (the roles would no longer be determined by the construction).
-            (void)setInitial;
+            if (withGuesses) {
+                setInitial(cls, (j % 2 == 0) ? "1" : "0.5");
+            }
             sys.unknowns.push_back(cls);
             W.push_back(w);
         }
